@@ -31,7 +31,8 @@ Inductive hstep :=
         (lines : list bytes) (asked : bytes) (parse reparse : option bytes) (entry : nat)
         (kind : nat) (form_st : option nat)
         (status : option nat) (csm : option bytes) (ran : bool)
-        (f_status : option nat) (f_cons : option bytes) (f_ran : bool).
+        (f_status : option nat) (f_cons : option bytes) (f_ran : bool)
+        (acc_ok : bool).
 
 Inductive case :=
 | CGate (declared : list bytes) (default : bytes) (registered : list bytes) (consumes keys : list bytes)
@@ -41,6 +42,9 @@ Inductive case :=
         (u_status : option nat) (u_cons : option bytes)
         (h_status : nat) (h_cons : option bytes) (h_ran : bool)
         (kind : nat) (form_st : option nat) (u_picked : option bytes)
+        (* the request's Accept header can be satisfied by what the operation produces (or there is none): what
+           middleware.NegotiateContentType answers to the harness itself *)
+        (acc_ok : bool)
 (* several requests answered one after the other by ONE Context of an API with several operations (same path under
    different methods, and other paths), each with its own consumes list *)
 | CHist (default : bytes) (registered : list bytes) (steps : list hstep).
@@ -48,14 +52,14 @@ Inductive case :=
 Definition step_check (default : bytes) (registered : list bytes) (st : hstep) : bool * bool :=
   match st with
   | HStep declared consumes keys cl_positive hdr nonempty hasbody_impl lines asked parse reparse entry
-          kind form_st status csm ran f_status f_cons f_ran =>
+          kind form_st status csm ran f_status f_cons f_ran acc_ok =>
     let hb := has_body cl_positive hdr nonempty in
     let mconsumes := add_route_consumes declared default in
     let g := gate_req default registered (mkgreq declared hb parse reparse (Nat.eqb entry 0)) in
     (* BindValidRequest is given a binder that decodes through route.Consumer whatever the operation declares;
        the reflective entry points go on to the parameter stage of the operation *)
-    let mo := if Nat.eqb entry 0 then (first_status g, decoding_consumer g)
-              else reflective (kind_of kind) form_st g in
+    let mo := if Nat.eqb entry 0 then typed_acc hb acc_ok g
+              else reflective_acc (kind_of kind) form_st acc_ok g in
     (* the answer inside the history is the answer of a fresh Context *)
     let same := res_eqb (status, csm) (f_status, f_cons) && Bool.eqb ran f_ran in
     let corr :=
@@ -66,8 +70,9 @@ Definition step_check (default : bytes) (registered : list bytes) (st : hstep) :
     let ex := expected_req default registered
                 (mkgreq declared (cl_positive || (negb hdr && nonempty)) parse reparse (Nat.eqb entry 0)) in
     let prop :=
-      (if Nat.eqb entry 0 then res_eqb (status, csm) ex && Bool.eqb ran (negb (is_some_nat (fst ex)))
-       else reflective_ok (kind_of kind) (is_some form_st) ex status csm ran) && same in
+      gate_before_format acc_ok ex
+        (if Nat.eqb entry 0 then res_eqb (status, csm) ex && Bool.eqb ran (negb (is_some_nat (fst ex)))
+         else reflective_ok (kind_of kind) (is_some form_st) ex status csm ran) status csm ran && same in
     (corr, prop)
   end.
 
@@ -78,13 +83,13 @@ Definition step_check (default : bytes) (registered : list bytes) (st : hstep) :
 Definition check_case (c : case) : N :=
   match c with
   | CGate declared default registered consumes keys cl_positive hdr nonempty hasbody_impl lines asked parse reparse ct_impl
-          t_status t_cons u_status u_cons h_status h_cons h_ran kind form_st u_picked =>
+          t_status t_cons u_status u_cons h_status h_cons h_ran kind form_st u_picked acc_ok =>
     let hb := has_body cl_positive hdr nonempty in
     let mconsumes := add_route_consumes declared default in
     let mkeys := route_consumers mconsumes registered in
-    let mt := (first_status (gate_typed hb parse reparse mconsumes mkeys), decoding_consumer (gate_typed hb parse reparse mconsumes mkeys)) in
+    let mt := typed_acc hb acc_ok (gate_typed hb parse reparse mconsumes mkeys) in
     let gu := gate_untyped hb parse reparse mconsumes mkeys in
-    let mu := reflective (kind_of kind) form_st gu in
+    let mu := reflective_acc (kind_of kind) form_st acc_ok gu in
     let corr :=
       same_set_b consumes mconsumes &&
       same_set_b keys mkeys &&
@@ -105,11 +110,16 @@ Definition check_case (c : case) : N :=
     let ex := expected_route (cl_positive || (negb hdr && nonempty)) parse declared default registered in
     let k := kind_of kind in
     let prop :=
-      res_eqb (t_status, t_cons) ex &&
+      (* a request the gate refuses is answered with that refusal whatever its Accept header asks for; one the gate
+         lets through may be answered 406 when no format is acceptable *)
+      gate_before_format acc_ok ex (res_eqb (t_status, t_cons) ex) t_status t_cons false &&
       (* the reflective entry points: the gate's refusal whatever the operation declares to read; past the gate the
          consumer decodes only for a body parameter, and the two entry points picked the same consumer *)
-      reflective_ok k (is_some form_st) ex u_status u_cons (negb (is_some_nat u_status)) &&
-      reflective_ok k (is_some form_st) ex (if Nat.eqb h_status 200 then None else Some h_status) h_cons h_ran &&
+      gate_before_format acc_ok ex (reflective_ok k (is_some form_st) ex u_status u_cons (negb (is_some_nat u_status)))
+        u_status u_cons false &&
+      gate_before_format acc_ok ex
+        (reflective_ok k (is_some form_st) ex (if Nat.eqb h_status 200 then None else Some h_status) h_cons h_ran)
+        (if Nat.eqb h_status 200 then None else Some h_status) h_cons h_ran &&
       (is_some_nat u_status || picked_ok ex u_picked) &&
       (* the API default is always added to the consumes list: an entry of the route's list names it *)
       (is_nilb default || listed_ci consumes default) in
